@@ -4,9 +4,10 @@ Property theorems only (helpers are in Proofs/C10_*.lean). Bytes are `List UInt8
 is for all inputs of any size. `ValidManifest` / `parseSpec` / `resolve` are the specification
 (Model/C10.lean), written from doc/architecture/manifest-format.html.textile.liquid.
 -/
-import ArvVerif.Proofs.C10_PkgText
+import ArvVerif.Proofs.C10_PkgTotal
 import ArvVerif.Proofs.C10_PyRanges
-import ArvVerif.Proofs.C10_FsLoop
+import ArvVerif.Proofs.C10_FsText
+import ArvVerif.Proofs.C10_Pdh
 namespace ArvVerif.C10
 
 /-! ## the binary searches -/
@@ -103,9 +104,304 @@ theorem C10_pkg_agrees (txt : Bytes) (M : Manifest) (hvalid : parseSpec txt = so
     have e : segLookup m (splitPath (pathOf sn fn)) = resolve M (pathOf sn fn) := this
     exact ⟨e, by rw [e]⟩
 
-/-- the grammar is inhabited by non-trivial texts: F3's witness is valid, is resolved across the
-zero-length block, and the hypotheses of `C10_pkg_agrees` hold for it -/
-def witnessF3 : Bytes :=
-  str ". aaaaaaaaaaaaaaaaaaaaaaaaaaaaaaaa+3 d41d8cd98f00b204e9800998ecf8427e+0 bbbbbbbbbbbbbbbbbbbbbbbbbbbbbbbb+5 2:4:f\n"
+/-- **C10_fs_agrees.** For every manifest text inside the grammar (sizes representable in the
+loader's int32/int64) in which no path is both a file and a directory, `loadManifest` succeeds,
+the loaded tree has exactly the manifest's paths as files, and the stored segments of every path
+are `resolve` — in particular none has length zero (finding F5) and they need no merging. -/
+theorem C10_fs_agrees (txt : Bytes) (M : Manifest) (hvalid : parseSpec txt = some M)
+    (hfit : ∀ s ∈ M, FitsFs s) (htree : TreeConsistent M) :
+    ∃ t, fsLoad txt = some t ∧
+      (∀ p ∈ pathsOf M, fsSegsOf t p = some (resolve M p) ∧
+        (fsSegsOf t p).map norm = some (norm (resolve M p))) ∧
+      (∀ e ∈ t.files, pathOfKey e.1 ∈ pathsOf M) := by
+  have hmem : ∀ s ∈ M, ∀ f ∈ s.files, pathOf s.name f.name ∈ pathsOf M := by
+    intro s hs f hf
+    unfold pathsOf
+    rw [List.mem_eraseDups, List.mem_flatMap]
+    exact ⟨s, hs, List.mem_map.mpr ⟨f, hf, rfl⟩⟩
+  have hpaths : ∀ s ∈ M, ∀ f ∈ s.files, pathOf s.name f.name ∈ pathsOf M ∧
+      NoConflictWith (pathsOf M) (pathOf s.name f.name) := by
+    intro s hs f hf
+    refine ⟨hmem s hs f hf, ?_⟩
+    intro q hq
+    exact ⟨htree q hq _ (hmem s hs f hf), htree _ (hmem s hs f hf) q hq⟩
+  have hfinal : ∀ t, FsInv ([] ++ manifestContribs M) t →
+      (∀ p ∈ pathsOf M, fsSegsOf t p = some (resolve M p) ∧
+        (fsSegsOf t p).map norm = some (norm (resolve M p))) ∧
+      (∀ e ∈ t.files, pathOfKey e.1 ∈ pathsOf M) := by
+    intro t hinv
+    simp only [List.nil_append] at hinv
+    have hdonepaths : ∀ q ∈ (manifestContribs M).map (·.1), q ∈ pathsOf M := by
+      intro q hq
+      simp only [manifestContribs, contribsOf, List.map_flatMap, List.map_map, List.mem_flatMap, List.mem_map,
+        Function.comp] at hq
+      obtain ⟨s, hs, f, hf, rfl⟩ := hq
+      exact hmem s hs f hf
+    constructor
+    · intro p hp
+      have hpin : ∃ c ∈ manifestContribs M, c.1 = p := by
+        unfold pathsOf at hp
+        rw [List.mem_eraseDups, List.mem_flatMap] at hp
+        obtain ⟨s, hs, hp⟩ := hp
+        obtain ⟨f, hf, rfl⟩ := List.mem_map.mp hp
+        exact ⟨(pathOf s.name f.name, resolveTok s.blocks 0 f.pos f.len),
+          List.mem_flatMap.mpr ⟨s, hs, List.mem_map.mpr ⟨f, hf, rfl⟩⟩, rfl⟩
+      obtain ⟨c, hc, hcp⟩ := hpin
+      obtain ⟨e, he, hpe⟩ := hinv.has c hc
+      have hseg : fsSegsOf t p = some (resolve M p) := by
+        unfold fsSegsOf
+        cases hf : t.files.find? (fun e => decide (joinWith bSlash ([bDot] :: e.1) = p)) with
+        | none =>
+          have := List.find?_eq_none.mp hf e he
+          simp only [decide_eq_true_eq] at this
+          exact absurd (by rw [← hcp, ← hpe]; rfl) this
+        | some e' =>
+          have hm := List.mem_of_find?_eq_some hf
+          have hp' := List.find?_some hf
+          simp only [decide_eq_true_eq] at hp'
+          obtain ⟨_, _, h3⟩ := hinv.files e' hm
+          simp only [Option.map_some, Option.some.injEq]
+          rw [h3]
+          have : pathOfKey e'.1 = p := hp'
+          rw [this, contribOf_manifest]
+      exact ⟨hseg, by rw [hseg]; rfl⟩
+    · intro e he
+      exact hdonepaths _ (hinv.files e he).2.1
+  unfold parseSpec at hvalid
+  by_cases h0 : txt = []
+  · rw [if_pos h0] at hvalid; cases hvalid; subst h0
+    refine ⟨⟨[], []⟩, by simp [fsLoad, splitOn, fsLines], ?_⟩
+    exact hfinal _ (by simpa [manifestContribs] using fsInv_empty)
+  · rw [if_neg h0] at hvalid
+    simp only [] at hvalid
+    by_cases hl : (splitOn bNL txt).getLast? = some []
+    · rw [if_pos hl] at hvalid
+      obtain ⟨t, h1, h2⟩ := fsLines_spec _ M hvalid hfit [] ⟨[], []⟩ fsInv_empty (pathsOf M) (by simp) hpaths
+      refine ⟨t, ?_, hfinal t h2⟩
+      unfold fsLoad
+      simp only [hl, ne_eq, not_true_eq_false, if_false]
+      exact h1
+    · rw [if_neg hl] at hvalid; cases hvalid
+
+/-- **C10_py_agrees** (stream level): for every stream inside the grammar and each of its file
+tokens, the Python range mapper over the Range list the SDK builds for the stream's blocks raises
+nothing and returns, zero-length entries dropped, the reference pieces. (The anchored Python code
+is a range mapper, not a parser: tokenizing and accumulating per file is harness code.) -/
+theorem C10_py_agrees (line : Bytes) (s : Stream) (hvalid : specLine line = some s) :
+    ∀ f ∈ s.files, ∃ segs, pyLocatorsAndRanges pyFirstBlock (pyRangesFrom 0 s.blocks) f.pos f.len = .ok segs ∧
+      pyKeep segs = resolveTok s.blocks 0 f.pos f.len ∧
+      norm (pyKeep segs) = norm (resolveTok s.blocks 0 f.pos f.len) := by
+  intro f hf
+  have hin : f.pos + f.len ≤ streamLen s.blocks := by
+    unfold specLine at hvalid
+    simp only [] at hvalid
+    split at hvalid
+    · split at hvalid
+      · split at hvalid
+        · split at hvalid
+          · split at hvalid
+            · split at hvalid
+              · rename_i hok
+                cases hvalid
+                have := List.all_eq_true.mp hok.2.2 f hf
+                simpa using this
+              · cases hvalid
+            · cases hvalid
+          · cases hvalid
+        · cases hvalid
+      · cases hvalid
+    · cases hvalid
+  obtain ⟨segs, h1, h2⟩ := pyLocatorsAndRanges_spec s.blocks f.pos f.len hin
+  exact ⟨segs, h1, h2, by rw [h2]⟩
+
+/-! ## escapes -/
+
+/-- **Escape round trip, every byte string, every codec pair**: whatever one of the three escapers
+(`manifest.EscapeName` fixed, `manifestEscape`, Python `escape`) writes, each of the three readers
+(`manifest.UnescapeName`, `manifestUnescape`, the specification's `\ooo` reader = the Python SDK's)
+reads back as the original name; the escaped form holds no delimiter or control byte. -/
+theorem C10_escape_roundtrip (s : Bytes) :
+    pkgUnescape (pkgEscape s) = s ∧ fsUnescape (pkgEscape s) = s ∧ specUnescape (pkgEscape s) = some s ∧
+    pkgUnescape (fsEscape s) = s ∧ fsUnescape (fsEscape s) = s ∧ specUnescape (fsEscape s) = some s ∧
+    pkgUnescape (pyEscape s) = s ∧ fsUnescape (pyEscape s) = s ∧ specUnescape (pyEscape s) = some s ∧
+    (∀ x ∈ pkgEscape s, 32 < x) ∧ (∀ x ∈ fsEscape s, 32 < x) ∧ (∀ x ∈ pyEscape s, 32 < x) := by
+  have hp : pkgEscapePred bBackslash = true := by decide
+  have hf : fsEscapePred bBackslash = true := by decide
+  have hp32 : ∀ c : UInt8, c ≤ 32 → pkgEscapePred c = true := by
+    intro c hc; simp [pkgEscapePred, hc]
+  have hf32 : ∀ c : UInt8, c ≤ 32 → fsEscapePred c = true := by
+    intro c hc; simp [fsEscapePred, hc]
+  exact ⟨goUnescape_escapeWith isDigit _ isOctDigit_isDigit hp s,
+    goUnescape_escapeWith isOctDigit _ (fun _ h => h) hp s,
+    specUnescape_escapeWith _ hp s,
+    goUnescape_escapeWith isDigit _ isOctDigit_isDigit hf s,
+    goUnescape_escapeWith isOctDigit _ (fun _ h => h) hf s,
+    specUnescape_escapeWith _ hf s,
+    goUnescape_escapeWith isDigit _ isOctDigit_isDigit hf s,
+    goUnescape_escapeWith isOctDigit _ (fun _ h => h) hf s,
+    specUnescape_escapeWith _ hf s,
+    escapeWith_no_delim _ hp32 s, escapeWith_no_delim _ hf32 s, escapeWith_no_delim _ hf32 s⟩
+
+/-- Documentation of finding F6 (repaired by d559316): the old `EscapeName` (`c <= 32` only) is not
+inverted — the name `a\040b` (a literal backslash) came back as `a b`. -/
+theorem C10_escape_old_fails :
+    pkgUnescape (pkgEscapeOld [97, 92, 48, 52, 48, 98]) = [97, 32, 98] := by decide
+
+/-- inside the grammar the Go readers agree with the specification's reader -/
+theorem C10_unescape_agrees (t u : Bytes) (h : specUnescape t = some u) :
+    pkgUnescape t = u ∧ fsUnescape t = u :=
+  ⟨goUnescape_of_spec isDigit isOctDigit_isDigit t.length t u (Nat.le_refl _) h,
+   goUnescape_of_spec isOctDigit (fun _ h => h) t.length t u (Nat.le_refl _) h⟩
+
+/-! ## portable data hash -/
+
+/-- **C10_pdh.** For every text inside the grammar and an arbitrary `md5hex`, `PortableDataHash` is
+`md5hex` of the text with every locator reduced to hash+size, `+`, the length of that text. Hence
+it does not change under re-signing or any other rewrite that touches hints only. -/
+theorem C10_pdh (md5hex : Bytes → Bytes) (txt : Bytes) (hvalid : ValidManifest txt) :
+    portableDataHash md5hex txt = md5hex (stripHints txt) ++ bPlus :: natToDec (stripHints txt).length := by
+  unfold ValidManifest at hvalid
+  cases h : parseSpec txt with
+  | none => rw [h] at hvalid; cases hvalid
+  | some M => unfold portableDataHash; rw [pdhInput_valid txt M h]
+
+theorem C10_pdh_hints_irrelevant (md5hex : Bytes → Bytes) (t1 t2 : Bytes) (h1 : ValidManifest t1)
+    (h2 : ValidManifest t2) (hs : stripHints t1 = stripHints t2) :
+    portableDataHash md5hex t1 = portableDataHash md5hex t2 := by
+  rw [C10_pdh md5hex t1 h1, C10_pdh md5hex t2 h2, hs]
+
+/-! ## totality: no panic, no partial application -/
+
+/-- what the manifest package parses out of a text, as structured streams -/
+def pkgParsed (txt : Bytes) : Manifest := (pkgStreams txt).map ofPStream
+
+/-- **C10_total, manifest package, full statement**: no input string makes `segment()` panic, and
+a manifest is never applied partially (either an error, or every path resolves over *all* parsed
+streams). -/
+def C10_pkg_total_Full : Prop :=
+  ∀ txt : Bytes, pkgSegment txt ≠ .panic ∧
+    (pkgSegment txt = .err ∨ ∃ m, pkgSegment txt = .ok m ∧
+      ∀ a b : Bytes, segLookup m (splitPath (pathOf a b)) = resolve (pkgParsed txt) (pathOf a b))
+
+/-- **C10_total for the manifest package, as far as the code allows**: for *every* input string
+whose error-free streams have no uint64 wrap-around (`NoWrap64`), `segment()` never panics; if in
+addition their names are in canonical form (`CleanNames`) the manifest is never applied partially.
+The two excluded input classes are the known findings F10a and F10c (witnesses below). -/
+theorem C10_pkg_total_partial (txt : Bytes)
+    (hnw : ∀ ps ∈ pkgStreams txt, ps.err = false → NoWrap64 ps) :
+    pkgSegment txt ≠ .panic ∧
+    ((∀ ps ∈ pkgStreams txt, ps.err = false → CleanNames ps) →
+      (pkgSegment txt = .err ∧ ∃ ps ∈ pkgStreams txt, ps.err = true) ∨
+      ∃ m, pkgSegment txt = .ok m ∧ (∀ ps ∈ pkgStreams txt, ps.err = false) ∧
+        ∀ a b : Bytes, segLookup m (splitPath (pathOf a b)) = resolve (pkgParsed txt) (pathOf a b)) := by
+  have hshape : ∀ ps ∈ pkgStreams txt, ps.err = false →
+      ps = toPStream (ofPStream ps) ∧ PkgFit (ofPStream ps) := by
+    intro ps hps he
+    unfold pkgStreams at hps
+    obtain ⟨line, _, rfl⟩ := List.mem_map.mp hps
+    exact pstream_fit line he (hnw _ hps he)
+  refine ⟨segmentStreams_no_panic _ [] hshape, ?_⟩
+  intro hclean
+  have hwf : ∀ ps ∈ pkgStreams txt, ps.err = false → ps = toPStream (ofPStream ps) ∧ PkgWf (ofPStream ps) := by
+    intro ps hps he
+    obtain ⟨e1, e2⟩ := hshape ps hps he
+    obtain ⟨c1, c2⟩ := hclean ps hps he
+    exact ⟨e1, e2.sizes, e2.total, e2.inside, c1, c2⟩
+  rcases segmentStreams_total (pkgStreams txt) [] hwf with h | ⟨m, h1, h2, h3⟩
+  · exact Or.inl h
+  · refine Or.inr ⟨m, h1, h2, ?_⟩
+    intro a b
+    have := h3 a b
+    simpa [segLookup, pkgParsed] using this
+
+/-! ## witnesses: non-vacuity and the known findings -/
+
+/-- F3's shape: a valid manifest whose file crosses an interior zero-length block -/
+def wF3 : Bytes := [46, 32, 97, 97, 97, 97, 97, 97, 97, 97, 97, 97, 97, 97, 97, 97, 97, 97, 97, 97, 97, 97, 97, 97, 97, 97, 97, 97, 97, 97, 97, 97, 97, 97, 43, 51, 32, 100, 52, 49, 100, 56, 99, 100, 57, 56, 102, 48, 48, 98, 50, 48, 52, 101, 57, 56, 48, 48, 57, 57, 56, 101, 99, 102, 56, 52, 50, 55, 101, 43, 48, 32, 98, 98, 98, 98, 98, 98, 98, 98, 98, 98, 98, 98, 98, 98, 98, 98, 98, 98, 98, 98, 98, 98, 98, 98, 98, 98, 98, 98, 98, 98, 98, 98, 43, 53, 32, 50, 58, 52, 58, 102, 10]
+def wF3M : Manifest :=
+  [⟨[46], [⟨[97, 97, 97, 97, 97, 97, 97, 97, 97, 97, 97, 97, 97, 97, 97, 97, 97, 97, 97, 97, 97, 97, 97, 97, 97, 97, 97, 97, 97, 97, 97, 97, 43, 51], 3⟩, ⟨[100, 52, 49, 100, 56, 99, 100, 57, 56, 102, 48, 48, 98, 50, 48, 52, 101, 57, 56, 48, 48, 57, 57, 56, 101, 99, 102, 56, 52, 50, 55, 101, 43, 48], 0⟩, ⟨[98, 98, 98, 98, 98, 98, 98, 98, 98, 98, 98, 98, 98, 98, 98, 98, 98, 98, 98, 98, 98, 98, 98, 98, 98, 98, 98, 98, 98, 98, 98, 98, 43, 53], 5⟩], [⟨2, 4, [102]⟩]⟩]
+
+set_option maxRecDepth 100000 in
+theorem wF3_valid : parseSpec wF3 = some wF3M := by decide +kernel
+
+/-- the hypotheses of `C10_pkg_agrees`, `C10_fs_agrees`, `C10_pdh` are satisfiable by a non-trivial text -/
+example : ValidManifest wF3 := by unfold ValidManifest; rw [wF3_valid]; rfl
+example : ∀ s ∈ wF3M, FitsGo s ∧ FitsFs s := by
+  intro s hs
+  simp only [wF3M, List.mem_singleton] at hs
+  subst hs
+  refine ⟨⟨?_, ?_⟩, ⟨?_, ?_⟩⟩ <;> simp [two63, two64, two31, streamLen] <;> omega
+example : TreeConsistent wF3M := by decide +kernel
+example : resolve wF3M [46, 47, 102] = [⟨[97, 97, 97, 97, 97, 97, 97, 97, 97, 97, 97, 97, 97, 97, 97, 97, 97, 97, 97, 97, 97, 97, 97, 97, 97, 97, 97, 97, 97, 97, 97, 97, 43, 51], 2, 1⟩, ⟨[98, 98, 98, 98, 98, 98, 98, 98, 98, 98, 98, 98, 98, 98, 98, 98, 98, 98, 98, 98, 98, 98, 98, 98, 98, 98, 98, 98, 98, 98, 98, 98, 43, 53], 0, 3⟩] := by decide +kernel
+
+/-- **finding F10a** — `C10_pkg_total_Full` is false: `pos+size` wraps around 2^64 in
+`parseManifestStream`, the token is accepted and the segment iterator panics. -/
+def wF10a : Bytes := [46, 32, 97, 97, 97, 97, 97, 97, 97, 97, 97, 97, 97, 97, 97, 97, 97, 97, 97, 97, 97, 97, 97, 97, 97, 97, 97, 97, 97, 97, 97, 97, 97, 97, 43, 51, 32, 49, 56, 52, 52, 54, 55, 52, 52, 48, 55, 51, 55, 48, 57, 53, 53, 49, 54, 49, 53, 58, 50, 58, 102, 10]
+
+set_option maxRecDepth 100000 in
+theorem wF10a_panics : pkgSegment wF10a = .panic := by decide +kernel
+
+theorem C10_pkg_total_full_fails : ¬ C10_pkg_total_Full := fun h => (h wF10a).1 wF10a_panics
+
+/-- F10a, second face: the wrapped token `1:18446744073709551615:f` is accepted and applied as an
+empty file although the stream has 3 bytes. -/
+def wF10a2 : Bytes := [46, 32, 97, 97, 97, 97, 97, 97, 97, 97, 97, 97, 97, 97, 97, 97, 97, 97, 97, 97, 97, 97, 97, 97, 97, 97, 97, 97, 97, 97, 97, 97, 97, 97, 43, 51, 32, 49, 58, 49, 56, 52, 52, 54, 55, 52, 52, 48, 55, 51, 55, 48, 57, 53, 53, 49, 54, 49, 53, 58, 102, 10]
+set_option maxRecDepth 100000 in
+example : pkgSegment wF10a2 = .ok [(([46], [102]), [])] := by decide +kernel
+
+/-- **finding F10c** — names that `path.Clean` alters are accepted and their content is dropped:
+for `. a…a+3 0:3:a//b` `segment()` succeeds with an empty file although the parsed streams resolve
+the path to 3 bytes. (So the second half of `C10_pkg_total_Full` fails too.) -/
+def wF10c : Bytes := [46, 32, 97, 97, 97, 97, 97, 97, 97, 97, 97, 97, 97, 97, 97, 97, 97, 97, 97, 97, 97, 97, 97, 97, 97, 97, 97, 97, 97, 97, 97, 97, 97, 97, 43, 51, 32, 48, 58, 51, 58, 97, 47, 47, 98, 10]
+set_option maxRecDepth 100000 in
+theorem wF10c_partially_applied :
+    pkgSegment wF10c = .ok [(([46, 47, 97, 47], [98]), [])] ∧
+    resolve (pkgParsed wF10c) (pathOf [46] [97, 47, 47, 98]) = [⟨[97, 97, 97, 97, 97, 97, 97, 97, 97, 97, 97, 97, 97, 97, 97, 97, 97, 97, 97, 97, 97, 97, 97, 97, 97, 97, 97, 97, 97, 97, 97, 97, 43, 51], 0, 3⟩] := by
+  constructor <;> decide +kernel
+
+/-- `loadManifest`'s "ran off the end of the stream" test for a token `o:l` from the start of a line -/
+def fsPastEnd (blocks : List Loc) (o l : Nat) : Bool :=
+  let r := fsLoop (o : Int) (addI64 o l) blocks 0 0 []
+  decide (r.1 = blocks.length ∧ r.2.1 < addI64 o l)
+
+/-- **C10_total, collection-fs loader, full statement**: a file token is rejected exactly when it
+reaches past the end of its stream. -/
+def C10_fs_rejects_overlong_Full : Prop :=
+  ∀ (blocks : List Loc) (o l : Nat), o < two63 → l < two63 →
+    (fsPastEnd blocks o l = true ↔ streamLen blocks < o + l)
+
+/-- **finding F10b** — the full statement is false: `offset+length` wraps around 2^63. -/
+theorem C10_fs_rejects_overlong_full_fails : ¬ C10_fs_rejects_overlong_Full := by
+  intro h
+  have := (h [⟨[], 3⟩] 9223372036854775807 2 (by decide) (by decide)).mpr (by decide)
+  revert this
+  decide +kernel
+
+/-- … and true whenever `offset+length` stays below 2^63. -/
+theorem C10_fs_rejects_overlong_partial (blocks : List Loc) (o l : Nat) (h : o + l < two63) :
+    fsPastEnd blocks o l = true ↔ streamLen blocks < o + l := by
+  unfold fsPastEnd
+  rw [addI64_eq o l h]
+  obtain ⟨_, k, hk1, hk2, hk3, hk4⟩ := fsLoop_spec o l blocks 0 0 []
+  simp only [Int.natCast_zero, Nat.zero_add] at hk3 hk4
+  simp only [decide_eq_true_eq, hk3, hk4]
+  constructor
+  · intro ⟨ha, hb⟩
+    have hfull : blocks.take k = blocks := by rw [ha]; exact List.take_length
+    rw [hfull] at hb
+    omega
+  · intro hlt
+    have hkl : k = blocks.length := by
+      rcases Nat.lt_or_eq_of_le hk1 with hh | hh
+      · have := hk2 hh; omega
+      · exact hh
+    refine ⟨hkl, ?_⟩
+    have hfull : blocks.take k = blocks := by rw [hkl]; exact List.take_length
+    rw [hfull]; omega
+
+/-- F10b on text: the loader accepts `. a…a+3 9223372036854775807:2:f` and creates `f` empty. -/
+def wF10b : Bytes := [46, 32, 97, 97, 97, 97, 97, 97, 97, 97, 97, 97, 97, 97, 97, 97, 97, 97, 97, 97, 97, 97, 97, 97, 97, 97, 97, 97, 97, 97, 97, 97, 97, 97, 43, 51, 32, 57, 50, 50, 51, 51, 55, 50, 48, 51, 54, 56, 53, 52, 55, 55, 53, 56, 48, 55, 58, 50, 58, 102, 10]
+set_option maxRecDepth 100000 in
+example : (fsLoad wF10b).map (·.files) = some [([[102]], [])] := by decide +kernel
 
 end ArvVerif.C10
